@@ -76,6 +76,9 @@ int main(int argc, char** argv) {
     for (std::size_t t = 0; t < ty.size(); t++) {
       if (ty[t].utc_offset < -86400 || ty[t].utc_offset > 86400 || (!builtin && (ty[t].utc_offset == -86400 || ty[t].utc_offset == 86400))) return fail("utc_offset outside +-24h", t);
       if (ty[t].abbr_index >= z.abbreviations_.size()) return fail("abbr_index out of range", t);
+      // the civil seconds of time_point max()/min() in this type, computed without LocalTime
+      if (ty[t].civil_max != (cctz::civil_second() + INT64_MAX) + ty[t].utc_offset) return fail("civil_max is not the civil second of time_point max() in that type", t);
+      if (ty[t].civil_min != (cctz::civil_second() + INT64_MIN) + ty[t].utc_offset) return fail("civil_min is not the civil second of time_point min() in that type", t);
     }
   }
   std::vector<std::int_fast64_t> ts = {INT64_MIN, INT64_MIN + 1, -1, 0, 1, INT64_MAX - 1, INT64_MAX};
